@@ -986,11 +986,37 @@ func init() {
 					if !isCall || call.Call.StaticCallee() != size {
 						continue
 					}
-					if call.Call.Args[0] != coder {
+					// the same coder: the same value, or two loads of the same place (a field of a cursor struct)
+					samePlace := func(a, b ssa.Value) bool {
+						if stripConv(a) == stripConv(b) {
+							return true
+						}
+						pa, pb := placeOf(a), placeOf(b)
+						if pa == "" || pa != pb {
+							return false
+						}
+						// no store to that place between the two loads (same block)
+						ia, oka := stripConv(a).(ssa.Instruction)
+						ib, okb := stripConv(b).(ssa.Instruction)
+						if !oka || !okb || ia.Block() != ib.Block() {
+							return false
+						}
+						lo, hi := instrIndex(ia), instrIndex(ib)
+						if lo > hi {
+							lo, hi = hi, lo
+						}
+						for _, mid := range ia.Block().Instrs[lo:hi] {
+							if st, isSt := mid.(*ssa.Store); isSt && "*"+accessPath(st.Addr) == pa {
+								return false
+							}
+						}
+						return true
+					}
+					if !samePlace(call.Call.Args[0], coder) {
 						why = "the offset is taken from a different coder than the one the document is added to"
 						continue
 					}
-					if stripConv(ia.Index) != stripConv(site.Common().Args[1]) {
+					if !samePlace(ia.Index, site.Common().Args[1]) {
 						why = "the offset is recorded under a different document number than the one added"
 						continue
 					}
